@@ -470,9 +470,8 @@ func (rm *remote) materialise(it *item) {
 	case itBadMagic:
 		it.bytes = rm.innerMsg(it, otherMagic)
 	case itBadChecksum:
-		if it.inner == 1 {
-			it.inner = 2 // a verack has no payload to corrupt; keep the checksum field wrong anyway
-		}
+		// (inner 1: a verack - no payload, but the checksum field must still
+		// be the checksum of the empty payload)
 		b := rm.innerMsg(it, rm.magic)
 		b[21] ^= 0xa5
 		it.bytes = b
